@@ -443,7 +443,7 @@ theorem frameOf_of_ok (fmt : R → List UInt8) (ids : List (List UInt8)) (id g :
   | panic => rw [hs] at h; cases h
   | oof => rw [hs] at h; cases h
 
-theorem layoutOf_pos (fmt : R → List UInt8) (b : BDoc R) : (layoutOf fmt b).Pos := by
+theorem layoutOf_pos (fmt : R → List UInt8) (typed : Bool) (b : BDoc R) : (layoutOf fmt typed b).Pos := by
   refine ⟨?_, ?_⟩
   · intro id; simp only [layoutOf]; split <;> omega
   · intro i; simp only [layoutOf]; omega
@@ -458,9 +458,16 @@ theorem serialize_stream_ok (fmt : R → List UInt8) (pr : List UInt8 → Option
   · have hnl : PdfSyntax.Gap [10] := PdfSyntax.Gap.ws 10 [] (by decide) PdfSyntax.Gap.nil
     exact ⟨[10], d ++ [62, 62], [10], [10], [10], rfl, hnl, hd, hnl, Or.inl rfl, hnl⟩
 
-/-- what a successful `saveB` did, in terms of the bytes -/
-structure SavedBytes (fmt : R → List UInt8) (b b' : BDoc R) (i : SaveInfo) : Prop where
-  doc : save (params fmt b.ids) (layoutOf fmt b) b.doc = (b'.doc, .ok i)
+/-- `saveB` appended the revision `i` (its `write_revision` part succeeded; the save as a whole may still have failed in
+    the typed reload of the trailer) -/
+structure CommittedB (fmt : R → List UInt8) (typed : Bool) (b b' : BDoc R) (i : SaveInfo) : Prop where
+  doc : Committed (params fmt b.ids) (layoutOf fmt typed b) b.doc b'.doc.st i
+  ids : b'.ids = b.ids
+  bytes : b'.bytes = b.bytes ++ revisionBytes fmt b i
+
+/-- what a `saveB` that appended its revision did, in terms of the bytes -/
+structure SavedBytes (fmt : R → List UInt8) (typed : Bool) (b b' : BDoc R) (i : SaveInfo) : Prop where
+  doc : Committed (params fmt b.ids) (layoutOf fmt typed b) b.doc b'.doc.st i
   ids : b'.ids = b.ids
   bytes : b'.bytes = b.bytes ++ revisionBytes fmt b i
   len : b'.bytes.length = b'.doc.st.len
@@ -475,24 +482,52 @@ structure SavedBytes (fmt : R → List UInt8) (b b' : BDoc R) (i : SaveInfo) : P
       b'.bytes.drop (b.doc.st.start + i.xpos) =
         (fmtNat i.xid ++ [32, 48, 32] ++ kwObj ++ [10] ++ body ++ kwEndobj ++ [10]) ++ tailBytes i
 
-theorem saveB_ok_iff (fmt : R → List UInt8) (b b' : BDoc R) (i : SaveInfo) (h : saveB fmt b = (b', .ok i)) :
-    save (params fmt b.ids) (layoutOf fmt b) b.doc = (b'.doc, .ok i) ∧ b'.ids = b.ids ∧
-      b'.bytes = b.bytes ++ revisionBytes fmt b i := by
+theorem commitInfo_of_committed {V : Type} (P : Params V) (L : Layout) (d : Doc V) (st' : St V) (i : SaveInfo)
+    (h : Committed P L d st' i) : commitInfo P L d = some i := by
+  obtain ⟨w, rows, hw, hr, _, hi, hmax⟩ := h
+  have hnb : ¬ (d.st.refs.length + 2 > MAX_ID) := by omega
+  unfold commitInfo
+  simp only [hnb, if_false, hw, hr, hi]
+
+/-- `saveB` is `save` on the document; the bytes grow by the revision exactly when the revision was written -/
+theorem saveB_cases (fmt : R → List UInt8) (typed : Bool) (b b' : BDoc R) (o : Out SaveInfo) (h : saveB fmt typed b = (b', o)) :
+    save (params fmt b.ids) (layoutOf fmt typed b) b.doc = (b'.doc, o) ∧ b'.ids = b.ids ∧
+      ((∃ i, commitInfo (params fmt b.ids) (layoutOf fmt typed b) b.doc = some i ∧ b'.bytes = b.bytes ++ revisionBytes fmt b i) ∨
+       (commitInfo (params fmt b.ids) (layoutOf fmt typed b) b.doc = none ∧ b'.bytes = b.bytes)) := by
   unfold saveB at h
-  generalize hs : save (params fmt b.ids) (layoutOf fmt b) b.doc = res at h
-  obtain ⟨d', o⟩ := res
-  cases o <;> simp only [Prod.mk.injEq, Out.ok.injEq, reduceCtorEq, and_false] at h
-  obtain ⟨rfl, rfl⟩ := h
-  exact ⟨rfl, rfl, rfl⟩
+  simp only at h
+  cases hc : commitInfo (params fmt b.ids) (layoutOf fmt typed b) b.doc with
+  | none =>
+    rw [hc] at h; simp only [Prod.mk.injEq] at h
+    obtain ⟨rfl, rfl⟩ := h
+    exact ⟨rfl, rfl, Or.inr ⟨rfl, rfl⟩⟩
+  | some i =>
+    rw [hc] at h; simp only [Prod.mk.injEq] at h
+    obtain ⟨rfl, rfl⟩ := h
+    exact ⟨rfl, rfl, Or.inl ⟨i, rfl, rfl⟩⟩
+
+theorem saveB_ok_iff (fmt : R → List UInt8) (typed : Bool) (b b' : BDoc R) (i : SaveInfo) (h : saveB fmt typed b = (b', .ok i)) :
+    save (params fmt b.ids) (layoutOf fmt typed b) b.doc = (b'.doc, .ok i) ∧ b'.ids = b.ids ∧
+      b'.bytes = b.bytes ++ revisionBytes fmt b i := by
+  obtain ⟨h1, h2, h3⟩ := saveB_cases fmt typed b b' _ h
+  have hc := commitInfo_of_committed _ _ _ _ _ (committed_of_ok _ _ _ _ _ h1)
+  rcases h3 with ⟨i', hi', hb⟩ | ⟨hn, _⟩
+  · rw [hc] at hi'; cases hi'; exact ⟨h1, h2, hb⟩
+  · rw [hc] at hn; cases hn
+
+theorem committedB_of_ok (fmt : R → List UInt8) (typed : Bool) (b b' : BDoc R) (i : SaveInfo) (h : saveB fmt typed b = (b', .ok i)) :
+    CommittedB fmt typed b b' i := by
+  obtain ⟨h1, h2, h3⟩ := saveB_ok_iff fmt typed b b' i h
+  exact ⟨committed_of_ok _ _ _ _ _ h1, h2, h3⟩
 
 theorem saveB_spec (fmt : R → List UInt8) (pr : List UInt8 → Option R) (d0 : Doc (Prim R)) (chain0) (b b' : BDoc R)
     (i : SaveInfo) (hb : BaseOK d0 chain0) (hi : Inv d0 b.doc) (hlen : b.bytes.length = b.doc.st.len)
-    (h : saveB fmt b = (b', .ok i)) (hbd : Bounds b.doc.tr (prep b.doc).infoRef i) : SavedBytes fmt b b' i := by
-  obtain ⟨hs, hids, hbytes⟩ := saveB_ok_iff fmt b b' i h
-  have hL := layoutOf_pos fmt b
+    (typed : Bool) (h : CommittedB fmt typed b b' i) (hbd : Bounds b.doc.tr (prep b.doc).infoRef i) : SavedBytes fmt typed b b' i := by
+  obtain ⟨hs, hids, hbytes⟩ := h
+  have hL := layoutOf_pos fmt typed b
   have pf := prep_facts d0 b.doc chain0 hb hi
-  obtain ⟨w, rows, hw, hr, hst, hl, hxid, hxpos, hsize, hrows, _⟩ := save_ok_spec _ _ _ _ _ hs
-  have hinfo := (save_ok_info _ _ _ _ _ hs w rows hw hr).symm
+  obtain ⟨w, rows, hw, hr, hst, hl, hxid, hxpos, hsize, hrows, _⟩ := hs.spec'
+  have hinfo := (hs.info w rows hw hr).symm
   subst hrows
   obtain ⟨f1, f2, f3, _⟩ := writeChanges_frame _ _ _ _ _ _ _ hw pf.inv.sorted
   obtain ⟨k1, _, k4, k5⟩ := writeChanges_ok _ _ _ hL.1 _ _ _ hw pf.inv.sorted pf.inv.objs_lt
@@ -506,7 +541,7 @@ theorem saveB_spec (fmt : R → List UInt8) (pr : List UInt8 → Option R) (d0 :
   rw [take_all _ _ (by omega)] at hr
   obtain ⟨r1, r2⟩ := rowsOf_spec _ _ hr
   -- the layout gives every frame its true length
-  have hLrec : ∀ c ∈ (prep b.doc).st2.changes, (layoutOf fmt b).recLen c.1 = (frameOf fmt c).length := by
+  have hLrec : ∀ c ∈ (prep b.doc).st2.changes, (layoutOf fmt typed b).recLen c.1 = (frameOf fmt c).length := by
     intro c hc
     obtain ⟨id, v, g⟩ := c
     have hlook := chLookup_of_mem_sorted _ pf.inv.sorted _ hc
@@ -529,12 +564,12 @@ theorem saveB_spec (fmt : R → List UInt8) (pr : List UInt8 → Option R) (d0 :
     rw [hbytes, hst]
     simp only [commit, revisionBytes]
     rw [hinfo]
-    have hx1 : (layoutOf fmt b).xrefLen i = (xrefObjBytes fmt b.doc.tr b.ids (prep b.doc).infoRef i).length := by
+    have hx1 : (layoutOf fmt typed b).xrefLen i = (xrefObjBytes fmt b.doc.tr b.ids (prep b.doc).infoRef i).length := by
       simp only [layoutOf]
       have : 0 < (xrefObjBytes fmt b.doc.tr b.ids (prep b.doc).infoRef i).length := by
         rw [hxob]; simp [kwObj]; omega
       omega
-    have hx2 : (layoutOf fmt b).tailLen i = (tailBytes i).length := rfl
+    have hx2 : (layoutOf fmt typed b).tailLen i = (tailBytes i).length := rfl
     rw [hx1, hx2]
     simp only [List.length_append] at hpre ⊢
     omega
@@ -591,19 +626,19 @@ structure SavedBackend (fmt : R → List UInt8) (b b' : BDoc R) (i : SaveInfo) :
 
 theorem saveB_backend (fmt : R → List UInt8) (d0 : Doc (Prim R)) (chain0) (b b' : BDoc R)
     (i : SaveInfo) (hb : BaseOK d0 chain0) (hi : Inv d0 b.doc) (hlen : b.bytes.length = b.doc.st.len)
-    (h : saveB fmt b = (b', .ok i)) : SavedBackend fmt b b' i := by
-  obtain ⟨hs, hids, hbytes⟩ := saveB_ok_iff fmt b b' i h
-  have hL := layoutOf_pos fmt b
+    (typed : Bool) (h : CommittedB fmt typed b b' i) : SavedBackend fmt b b' i := by
+  obtain ⟨hs, hids, hbytes⟩ := h
+  have hL := layoutOf_pos fmt typed b
   have pf := prep_facts d0 b.doc chain0 hb hi
-  obtain ⟨w, rows, hw, hr, hst, hl, hxid, hxpos, hsize, hrows, _⟩ := save_ok_spec _ _ _ _ _ hs
-  have hinfo := (save_ok_info _ _ _ _ _ hs w rows hw hr).symm
+  obtain ⟨w, rows, hw, hr, hst, hl, hxid, hxpos, hsize, hrows, _⟩ := hs.spec'
+  have hinfo := (hs.info w rows hw hr).symm
   subst hrows
   obtain ⟨k1, _, k4, k5⟩ := writeChanges_ok _ _ _ hL.1 _ _ _ hw pf.inv.sorted pf.inv.objs_lt
   simp only at k1 k4 k5
   have hstart : (prep b.doc).st2.start ≤ (prep b.doc).st2.len := by
     have := hb.start_le; have := pf.inv.start_eq; have := pf.inv.len_ge
     simp only at *; omega
-  have hLrec : ∀ c ∈ (prep b.doc).st2.changes, (layoutOf fmt b).recLen c.1 = (frameOf fmt c).length := by
+  have hLrec : ∀ c ∈ (prep b.doc).st2.changes, (layoutOf fmt typed b).recLen c.1 = (frameOf fmt c).length := by
     intro c hc
     obtain ⟨id, v, g⟩ := c
     have hlook := chLookup_of_mem_sorted _ pf.inv.sorted _ hc
